@@ -297,17 +297,6 @@ def _unshift(db, chk):
     chk.ob(rule, "_align_all_ranks subtracts self.min_ts (the attribute added back) and is its only writer besides __init__", len(subs) >= 1 and "min_ts" in stores and
            all("min_ts" not in H.attr_store_names(fn, "self") for q, fn in tm.functions.items() if q.startswith("Trace.") and q not in ("Trace._align_all_ranks", "Trace.__init__")),
            tm.loc(al), found={"subtractions": len(subs), "stores": stores}, accepted="ts - self.min_ts ; self.min_ts = ...")
-    # wrapper: counter columns agree with the series functions
-    ta = db.mod("hta.trace_analysis")
-    g = ta.func("TraceAnalysis.generate_trace_with_counters")
-    cs = [c for c in H.calls(g) if H.name_id(c.func) == "add_time_series"]
-    got = {}
-    for c in cs:
-        kws = H.bound_args(c)
-        src = ast.unparse(kws.get("series_dict")) if "series_dict" in kws else ""
-        got["queue" if "queue_length" in src else "membw" if "memory_bw" in src else src] = (H.str_const(kws.get("counter_col")), H.str_const(kws.get("counter_name")))
-    chk.ob(rule, "wrapper reads the columns the series functions produce", got.get("queue", (None,))[0] == "queue_length" and got.get("membw", (None,))[0] == "memory_bw_gbps",
-           ta.loc(g), found=got, accepted={"queue": "queue_length", "membw": "memory_bw_gbps"})
     chk.floor(rule, 12)
 
 
@@ -348,40 +337,72 @@ def _per_rank_wrappers(db, chk, m):
 
 
 def _wrapper_rename(db, chk):
-    """generate_trace_with_counters.add_time_series: the frame handed to convert_time_series_to_events carries the stream under the column
-    'id' (the counter id that keeps the per-stream series apart in the written file)."""
+    """generate_trace_with_counters, evaluated as a whole (series functions, event conversion and file access are hooked): for every requested flag the
+    series of that flag reaches convert_time_series_to_events with the counter column the series function produces, and a per-stream series carries
+    the stream under the column 'id' (the counter id that keeps the per-stream series apart in the written file)."""
     rule = "C14.R4-unshift-agreement"
     ta = db.mod("hta.trace_analysis")
-    q = "TraceAnalysis.generate_trace_with_counters.add_time_series"
+    q = "TraceAnalysis.generate_trace_with_counters"
     f = ta.func(q)
     where = ta.loc(f)
-    S = ("param", "SER")
-    seen = []
+    SQ, SM = ("param", "SQ"), ("param", "SM")
+    qcols, mcols = ["pid", "tid", "ts", "queue_length", "stream"], ["pid", "tid", "ts", "memory_bw_gbps", "name"]
+    params = [p_ for p_ in H.param_names(f) if p_ != "self"]
+    if params[:3] != ["time_series", "ranks", "output_suffix"]:
+        chk.ob(rule, "generate_trace_with_counters(time_series, ranks, output_suffix) recognised", None, where, found=params)
+        return
 
     def hook(I, name, pos, kw, node):
+        if name.endswith("get_queue_length_time_series"):
+            return {T.P("RANK"): Frame(SQ, known=list(qcols))}
+        if name.endswith("get_memory_bw_time_series"):
+            return {T.P("RANK"): Frame(SM, known=list(mcols))}
         if name.endswith("convert_time_series_to_events"):
-            seen.append(pos[0] if pos else kw.get("series"))
+            I.log("convert", node, frame=pos[0] if pos else kw.get("series"), cname=pos[1] if len(pos) > 1 else kw.get("counter_name"), ccol=pos[2] if len(pos) > 2 else kw.get("counter_col"))
             return []
+        if name.endswith("get_raw_trace_for_one_rank"):
+            return {"traceEvents": []}
+        if name.endswith("write_raw_trace"):
+            return None
         return NotImplemented
-    from ..core.values import DefaultDict
-    for has_stream in (True, False):
-        seen.clear()
-        I = Interp(db, call_hook=hook)
-        cols = ["pid", "tid", "ts", "CNT"] + (["stream"] if has_stream else ["name"])
-
-        def clos(I):
-            d = DefaultDict()
-            return {"self": Obj("self", attrs={"t": Obj("t")}), "counter_events": d}
-        runs = [r for r in I.explore(f"hta.trace_analysis:{q}", lambda I: {"series_dict": {T.P("RANK"): Frame(S, known=list(cols))}, "counter_name": "CN", "counter_col": "CNT"}, clos) if r.raised is None]
-        fr = [x for x in seen if isinstance(x, Frame)]
-        if len(runs) != 1 or len(fr) != 1:
-            chk.ob(rule, f"add_time_series (stream column present={has_stream}): one path handing one frame to convert_time_series_to_events", None, where, found={"paths": len(runs), "frames": len(fr)})
+    I = Interp(db, call_hook=hook)
+    runs = [r for r in I.explore(f"hta.trace_analysis:{q}", lambda I: {"self": Obj("self", attrs={"t": Obj("t", attrs={"trace_files": T.P("FILES")})}), "time_series": T.P("TS"), "ranks": [T.P("R0")],
+                                                                     "output_suffix": "_x"}) if r.raised is None]
+    chk.analysed_add("functions", f"hta.trace_analysis:{q}")
+    flags = {"QUEUE_LENGTH": (SQ, "queue_length", qcols), "MEMCPY_BANDWIDTH": (SM, "memory_bw_gbps", mcols)}
+    done = 0
+    for r in runs:
+        req = {}
+        for c in r.path:
+            neg = isinstance(c, tuple) and c[0] == "not"
+            cc = c[1] if neg else c
+            if isinstance(cc, tuple) and cc[0] == "in" and isinstance(cc[1], tuple) and cc[1][0] == "enum" and cc[1][2] in flags:
+                req[cc[1][2]] = not neg
+        if set(req) != set(flags):
             continue
-        F = fr[0]
-        if has_stream:
-            ok = F.has("id") is True and F.col("id") == T.col(S, "stream") and F.has("stream") is not True
-            chk.ob(rule, "a per-stream series reaches the event conversion with its stream under the column 'id'", ok, where,
-                   found={"columns": F.colnames(), "id": T.show(F.col("id"))[:60] if F.has("id") else None}, accepted="id = series.stream (renamed in place or re-assigned)",
-                   why="without the id every stream's 'Queue Length' counter collapses into one series in the written file")
-        else:
-            chk.ob(rule, "a series without a stream column is passed on unchanged", F.base == S and F.colnames() is not None and sorted(F.colnames()) == sorted(cols), where, found=F.colnames(), accepted=sorted(cols))
+        done += 1
+        conv = [e for e in r.events if e["kind"] == "convert"]
+        tag = ", ".join(f"{k}={'on' if v else 'off'}" for k, v in sorted(req.items()))
+        for fl, (base, col, cols) in flags.items():
+            mine = [e for e in conv if isinstance(e["frame"], Frame) and e["frame"].base == base]
+            if not req[fl]:
+                chk.ob(rule, f"[{tag}] no {fl} counter is written when the flag is not requested", not mine, where, found=len(mine), accepted=0)
+                continue
+            if len(mine) != 1:
+                chk.ob(rule, f"[{tag}] the {fl} series of each rank is converted to counter events once", None if not mine and any(not isinstance(e["frame"], Frame) for e in conv) else False, where,
+                       found=len(mine), accepted=1, why="a requested time series that is not converted is missing from the written file")
+                continue
+            e = mine[0]
+            F = e["frame"]
+            chk.ob(rule, f"[{tag}] wrapper reads the column the {fl} series function produces", e["ccol"] == col, where, found=to_term(e["ccol"]), accepted=col)
+            if "stream" in cols:
+                ok = F.has("id") is True and F.col("id") == T.col(base, "stream") and F.has("stream") is not True
+                chk.ob(rule, f"[{tag}] a per-stream series reaches the event conversion with its stream under the column 'id'", ok, where,
+                       found={"columns": F.colnames(), "id": T.show(F.col("id"))[:60] if F.has("id") else None}, accepted="id = series.stream (renamed in place or re-assigned)",
+                       why="without the id every stream's 'Queue Length' counter collapses into one series in the written file")
+            else:
+                chk.ob(rule, f"[{tag}] a series without a stream column is passed on unchanged", F.colnames() is not None and sorted(F.colnames()) == sorted(cols) and F.rows == T.TRUE, where,
+                       found=F.colnames(), accepted=sorted(cols))
+    chk.ob(rule, "generate_trace_with_counters analysed on the paths that decide both flags", True if done >= 4 else None, where, found=done, accepted=">= 4")
+
+
